@@ -34,7 +34,7 @@ func symPre(fsys *vfsx.FS, name string, dataLen, targetLen int) preObj {
 	case vfsx.KReg:
 		p.data = nd_bytes(dataLen)
 	case vfsx.KLink:
-		p.target = nd_string(targetLen)
+		p.target = symTarget(targetLen)
 		p.perm = 0o777
 	case vfsx.KChr, vfsx.KBlk:
 		p.rdev = uint64(nd_u32())
@@ -108,7 +108,7 @@ func symEntry(name string, targetLen int) *File {
 	f.Uid = nd_i32()
 	f.Gid = nd_i32()
 	f.Rdev = nd_i32()
-	f.LinkTarget = nd_string(targetLen)
+	f.LinkTarget = symTarget(targetLen)
 	copy(f.Checksum[:], nd_bytes(16))
 	return f
 }
